@@ -92,6 +92,7 @@ pub fn write(
 
 fn sub_json(st: &Stats) -> serde_json::Value {
     json!({
+        "cases": st.cases,
         "evaluations": st.evaluations,
         "nontrivial": st.nontrivial,
         "distinct_nontrivial": st.distinct_count,
